@@ -421,6 +421,14 @@ func (e *Engine) intrinsic(st *State, fn *ssa.Function, args []Value, ci ssa.Val
 		e.finish(st, ci, nil, fd)
 		return true
 	case "(*github.com/lni/goutils/syncutil.Stopper).Stop", "(*github.com/lni/goutils/syncutil.Stopper).Close":
+		// no worker goroutine was started (RunWorker above), so there is nothing
+		// to wait for: the stop channel is closed
+		if p, ok := args[0].(*Ptr); ok && p != nil {
+			if ch, ok := st.load(&Ptr{Obj: p.Obj, Path: appendPath(p.Path, 1)}).(*ChanRef); ok && ch != nil && ch.Obj != 0 {
+				cv := st.heap[ch.Obj].(*ChanVal)
+				st.heap[ch.Obj] = &ChanVal{Buf: cv.Buf, Cap: cv.Cap, Closed: true}
+			}
+		}
 		e.finish(st, ci, nil, fd)
 		return true
 	case "(*sync.Cond).Signal", "(*sync.Cond).Broadcast":
